@@ -6,7 +6,7 @@ import subprocess
 import sys
 import traceback
 
-from .report import Run, PY
+from .report import Run, PY, SetupFailure
 
 
 def main():
@@ -24,6 +24,11 @@ def main():
     try:
         mod = importlib.import_module(f"props.{a.pid}")
         mod.run(run, tier)
+    except SetupFailure as e:
+        v = run.violation(f"setup.{e.key}", f"setup:{e.key}", e.what, e.replay_text)
+        run.obligation(f"setup.{e.key}", "violated" if v == "violated" else v, e.what)
+        if v == "inconclusive":
+            run.internal_errors.append(f"setup failure that does not reproduce: {e.what}")
     except Exception as e:
         run.internal_errors.append(f"{type(e).__name__}: {e}\n{traceback.format_exc()}")
     sys.exit(run.finish())
